@@ -28,6 +28,32 @@ type op struct {
 	Keys []string `json:"keys,omitempty"`
 	Exp  int64    `json:"exp,omitempty"`
 	D    int64    `json:"d,omitempty"`
+	// client metadata. Set: UAt / CAt = UpdatedAt / CreatedAt sent with the pair: 0 none, 1 the zero
+	// timestamp, 2 an instant in 1985, 3 an instant in 2090. Increment / PatchTreasures: MU / MC =
+	// ask the server to stamp UpdatedAt / CreatedAt (request metadata), Exp = ExpiredAt.
+	UAt int64 `json:"uat,omitempty"`
+	CAt int64 `json:"cat,omitempty"`
+	MU  bool  `json:"mu,omitempty"`
+	MC  bool  `json:"mc,omitempty"`
+}
+
+// withMeta lets about a third of the writes carry client metadata.
+func withMeta(r *rand.Rand, o op, bubble bool) op {
+	if r.IntN(3) != 0 {
+		return o
+	}
+	switch o.K {
+	case "set":
+		o.UAt, o.CAt = int64(r.IntN(4)), int64(r.IntN(4))
+	case "inc", "patch":
+		if bubble { // "now" is only exactly known on the virtual clock
+			o.MU, o.MC = r.IntN(3) != 0, r.IntN(2) == 0
+		}
+		if r.IntN(4) == 0 {
+			o.Exp = pick(r, expChoices)
+		}
+	}
+	return o
 }
 
 type subAct struct {
@@ -333,20 +359,20 @@ func gen(c *rig.Check, idx int) *hist {
 					if r.IntN(3) == 0 {
 						k = pick(r, pool)
 					}
-					ops = append(ops, genOpOnKey(r, k, pool))
+					ops = append(ops, withMeta(r, genOpOnKey(r, k, pool), h.Mode == "bubble"))
 				}
 			} else {
 				n := 1 + r.IntN(4)
 				for i := 0; i < n; i++ {
 					if r.IntN(10) < 6 {
-						ops = append(ops, genSharedOp(r, pool, expRound && l == 0, expRound && l != 0))
+						ops = append(ops, withMeta(r, genSharedOp(r, pool, expRound && l == 0, expRound && l != 0), h.Mode == "bubble"))
 					} else {
 						k := pick(r, []string{privStr(l), privInt(l), privDoc(l)})
 						o := genOpOnKey(r, k, pool)
 						if o.K == "index" {
 							o = op{K: "count"}
 						}
-						ops = append(ops, o)
+						ops = append(ops, withMeta(r, o, h.Mode == "bubble"))
 					}
 				}
 			}
@@ -365,6 +391,9 @@ func fixedHists() []*hist {
 		one(op{K: "patch", Key: "d0"}, op{K: "patch", Key: "d0"}, op{K: "patchNoop", Key: "d0"}, op{K: "patchNoop", Key: "d0", D: 1}, op{K: "patchFail", Key: "d0"}),
 		one(op{K: "set", Key: "e0", Exp: -3600e9}, op{K: "shiftExp"}, op{K: "shiftKeys", Keys: []string{"s0", "zz"}}, op{K: "del", Keys: []string{"n0", "d0"}}),
 		one(op{K: "set", Key: "s1"}),
+		one(op{K: "set", Key: "s1", UAt: 2, CAt: 3}, op{K: "set", Key: "s1"}, op{K: "set", Key: "s2", UAt: 3, CAt: 1}, op{K: "set", Key: "s2", UAt: 1}),
+		one(op{K: "inc", Key: "n1", D: 1, MU: true, MC: true}, op{K: "patch", Key: "d1", MU: true, Exp: 3600e9 + 7}),
+		one(op{K: "inc", Key: "n1", D: 1}, op{K: "patch", Key: "d1"}, op{K: "set", Key: "s1"}, op{K: "set", Key: "s2"}),
 	}}
 	h2 := &hist{Idx: -2, Mode: "bubble", Store: "mem", Conc: true, Subs: 2, Rounds: []round{
 		{SleepNs: 1e6, Pre: []subAct{{0, "open"}, {1, "open"}}, Lanes: [][]op{
